@@ -53,7 +53,7 @@ def direction_oracle(names):
     missing = [n for n in names if n not in _DIR_CACHE]
     if missing:
         p = subprocess.run([hostrun.HOST_BIN, "direction"], input="\n".join(missing) + "\n", capture_output=True, text=True, env=hostrun.ENV)
-        for l in p.stdout.splitlines():
+        for l in p.stdout.split("\n"):
             a, b = l.split("\t")
             _DIR_CACHE[a] = b
     return _DIR_CACHE
